@@ -178,9 +178,19 @@ func scRoaming(r *Run) {
 		case 0: // the roaming endpoint gets a new address (NAT rebinding / new network)
 			moves++
 			na := Addr(byte(100+moves), 4000+moves)
+			cur := tc.EP.LocalAddr().(*net.UDPAddr)
+			if serverMoves {
+				cur = srv.EP.LocalAddr().(*net.UDPAddr)
+			}
+			switch r.Intn("act", 3) {
+			case 0: // NAT rebinding: only the port changes
+				na = &net.UDPAddr{IP: cur.IP, Port: cur.Port + 1000 + moves}
+			case 1: // only the IP changes
+				na = &net.UDPAddr{IP: na.IP, Port: cur.Port}
+			}
 			keep := r.Intn("act", 2) == 0
 			if serverMoves {
-				n.Rehome(srv.EP, &net.UDPAddr{IP: na.IP, Port: 77 + moves}, keep)
+				n.Rehome(srv.EP, na, keep)
 			} else {
 				n.Rehome(tc.EP, na, keep)
 			}
@@ -203,6 +213,18 @@ func scRoaming(r *Run) {
 				continue
 			}
 			g := captured[r.Intn("act", len(captured))].clone()
+			if r.Intn("act", 3) == 0 { // corrupted by truncation: still carries the public header of the session
+				l := []int{8, 9, 12, 16, 17, 40, 47, 48, len(g.Data) - 1}[r.Intn("act", 9)]
+				if l > len(g.Data)-1 {
+					l = len(g.Data) - 1
+				}
+				g.Data = g.Data[:l]
+				g.Mut = fmt.Sprintf("trunc@%d", l)
+				g.From = a
+				n.Redeliver(g, 0)
+				r.CountFault("truncated-copy-from-other-address", 1)
+				continue
+			}
 			off := flipOffset(r, "act", 1+r.Intn("act", 6), len(g.Data))
 			if off < 8 && off >= 4 {
 				off = 8 + r.Intn("act", len(g.Data)-8) // keep the session id so that the packet reaches the session
